@@ -983,8 +983,8 @@ func runC20(c *Ctx) int {
 		return c20Replay(c, run)
 	}
 
-	nSeq := c.Pick(400, 7000)
-	nCon := c.Pick(160, 3000)
+	nSeq := c.Pick(400, 20000)
+	nCon := c.Pick(160, 8000)
 	specs := append(c20Specs(c, "sequential", nSeq, false), c20Specs(c, "concurrent", nCon, true)...)
 	outs := make([]c20CaseResult, len(specs))
 
